@@ -66,6 +66,9 @@ type Seg struct {
 
 type Str struct{ segs []Seg }
 
+// aliasReadHook is set while goroutines of a harness run (thread mode): race monitor for alias views
+var aliasReadHook func(cells []Value)
+
 func mkStr(s string) Str {
 	if s == "" {
 		return Str{}
@@ -108,6 +111,9 @@ func (s Str) norm() Str {
 			out = append(out, g)
 			continue
 		case g.Alias != nil:
+			if aliasReadHook != nil {
+				aliasReadHook(g.Alias) // reading an unsafe string view reads the byte cells it aliases
+			}
 			b = make([]SByte, len(g.Alias))
 			for i, v := range g.Alias {
 				b[i] = sbyteOf(v)
